@@ -3,6 +3,8 @@ package bitstr
 import (
 	"bytes"
 	"math/bits"
+	"reflect"
+	"runtime"
 	"unsafe"
 
 	"github.com/openacid/low/bitmap"
@@ -130,7 +132,17 @@ func CmpUpto(a, b []byte) int {
 //
 // Since 0.1.20
 func StrCmpUpto(a string, b []byte) int {
-	return CmpUpto(*(*[]byte)(unsafe.Pointer(&a)), b)
+	// A string header has no capacity word: build the slice header explicitly
+	// instead of reading a 3-word slice header out of the 2-word string header.
+	var bs []byte
+	sh := (*reflect.StringHeader)(unsafe.Pointer(&a))
+	bh := (*reflect.SliceHeader)(unsafe.Pointer(&bs))
+	bh.Data = sh.Data
+	bh.Len = sh.Len
+	bh.Cap = sh.Len
+	rst := CmpUpto(bs, b)
+	runtime.KeepAlive(a)
+	return rst
 }
 
 // Len returns the number of payload bits in a bitStr.
